@@ -79,6 +79,41 @@ def msgJson : Option NonJson → Json
   | some .sudoMissing => "sudo_missing"
   | some .other => "other"
 
+def settingName : Setting → String
+  | .governor i => s!"governor:{i}"
+  | .noTurbo => "no_turbo"
+  | .perfMaxPercent => "perf_max_percent"
+  | .perfSampleRate => "perf_sample_rate"
+  | .perfParanoid => "perf_paranoid"
+  | .shield => "shield"
+
+def actJson : Act → Json
+  | .write k v => Json.mkObj [("t", "write"), ("s", Json.str (settingName k)), ("v", str v)]
+  | .touch k => Json.mkObj [("t", "touch"), ("s", Json.str (settingName k))]
+  | .niceProbe => Json.mkObj [("t", "nice")]
+  | .shieldOn lo hi => Json.mkObj [("t", "shield_on"), ("lo", Json.num lo), ("hi", Json.num hi)]
+  | .shieldReset => Json.mkObj [("t", "shield_reset")]
+
+def parseHost (j : Json) : Option Host := do
+  let gov ← (getArr? j "governor_writable").bind (fun a => a.toList.mapM asBool?)
+  let nt ← getBool? j "no_turbo_writable"
+  let mp ← getBool? j "max_percent_writable"
+  let sr ← getBool? j "sample_rate_writable"
+  let pa ← getBool? j "paranoid_writable"
+  pure { writable := fun s => match s with
+           | .governor i => gov.getD i true
+           | .noTurbo => nt
+           | .perfMaxPercent => mp
+           | .perfSampleRate => sr
+           | .perfParanoid => pa
+           | .shield => true,
+         hasCset := ← getBool? j "has_cset",
+         shieldActivates := ← getBool? j "shield_activates",
+         shieldResets := ← getBool? j "shield_resets",
+         canNice := ← getBool? j "can_nice" }
+
+def okJson (b : Bool) (v : Json) : Json := if b then v else Json.str "failed"
+
 def handle (op : String) (j : Json) : Option Json :=
   match op with
   | "c20.session" => do
@@ -98,6 +133,39 @@ def handle (op : String) (j : Json) : Option Json :=
           | none => Json.null
           | some r => Json.mkObj [("succeeded", Json.bool r.succeeded), ("use_nice", Json.bool r.useNice),
                                   ("use_shielding", Json.bool r.useShielding), ("msg", msgJson r.msg)])])
+  | "c20.par_session" => do
+      let prof ← getBool? j "profiling"
+      let rep ← (getObj? j "report").bind parseReport
+      let g ← (getArr? j "events").bind (fun a => a.toList.mapM parseBodyEv)
+      let e ← (getStr? j "ending").bind parseEnding
+      let at? : Option Nat := getNat? j "interrupt_at"
+      let pinned ← getBool? j "pinned"
+      let (evs, ending) := if pinned then parSessionPinned prof rep (fun _ _ => g) at? e
+                           else parSession prof rep (fun _ _ => g) at? e
+      pure (Json.mkObj [("trace", Json.arr (evs.map evJson).toArray), ("ending", endingJson ending)])
+  | "c20.interleave" => do
+      let sched ← (getArr? j "schedule").bind (fun a => a.toList.mapM asNat?)
+      let ws ← (getArr? j "workers").bind (fun a => a.toList.mapM (fun w => (asArr? w).bind (fun b => b.toList.mapM parseBodyEv)))
+      pure (Json.arr ((interleave sched ws).map bodyEvJson).toArray)
+  | "c20.denoise_minimize" => do
+      let h ← (getObj? j "host").bind parseHost
+      let n ← getNat? j "n"
+      let nice ← getBool? j "nice"
+      let shield ← getBool? j "shield"
+      let prof ← getBool? j "profiling"
+      let (acts, r) := minimizeActs h n nice shield prof
+      pure (Json.mkObj [("acts", Json.arr (acts.map actJson).toArray),
+        ("result", Json.mkObj [("governor_ok", Json.bool r.governorOk), ("no_turbo_ok", Json.bool r.noTurboOk),
+                               ("perf_ok", Json.bool r.perfOk), ("can_nice", Json.bool r.canNice),
+                               ("shielding", Json.bool r.shielding)])])
+  | "c20.denoise_restore" => do
+      let h ← (getObj? j "host").bind parseHost
+      let n ← getNat? j "n"
+      let shield ← getBool? j "shield"
+      let (acts, r) := restoreActs h n shield
+      pure (Json.mkObj [("acts", Json.arr (acts.map actJson).toArray),
+        ("result", Json.mkObj [("governor_ok", Json.bool r.governorOk), ("no_turbo_ok", Json.bool r.noTurboOk),
+                               ("perf_ok", Json.bool r.perfOk), ("shielding", Json.bool r.shielding)])])
   | "c20.wrap" => do
       let c : WrapCfg := {
         useNice := ← getBool? j "use_nice"
